@@ -54,10 +54,9 @@ ClipV == IF Full THEN {<<I(-1), I(2)>>, <<Zero, Half>>, <<I(-4), I(4)>>} ELSE {<
 SV   == IF Full THEN {Half, One, I(2)} ELSE {Half, I(2)}              \* reward scales (powers of two)
 TSeqs == [1..H -> {0, 1}]                                             \* termination patterns over the horizon
 (* latent vectors (dimension 2); ZRaw: un-normalised embeddings whose mean |.| is a power of two *)
-ZV   == IF Full THEN {<<Zero, Zero>>, <<One, I(-1)>>, <<Half, I(2)>>} ELSE {<<Zero, Zero>>, <<One, I(-1)>>}
-ZT   == IF Full THEN {<<Zero, Zero>>, <<One, One>>, <<I(-2), Half>>} ELSE {<<One, One>>}
-ZRaw == IF Full THEN {<<One, One>>, <<I(2), Zero>>, <<I(3), I(-1)>>, <<Half, Q(-3, 2)>>, <<Q(-1, 2), Half>>}
-                ELSE {<<I(2), Zero>>, <<Half, Q(-3, 2)>>}
+ZV   == IF Full \/ kind = "sale" THEN {<<Zero, Zero>>, <<One, I(-1)>>, <<Half, I(2)>>} ELSE {<<Zero, Zero>>, <<One, I(-1)>>}
+ZT   == IF Full \/ kind = "sale" THEN {<<Zero, Zero>>, <<One, One>>, <<I(-2), Half>>} ELSE {<<One, One>>}
+ZRaw == {<<One, One>>, <<I(2), Zero>>, <<I(3), I(-1)>>, <<Half, Q(-3, 2)>>, <<Q(-1, 2), Half>>}
 PDV  == IF Full THEN {Zero, Half, I(2)} ELSE {Zero, Half}             \* predicted done flag
 WgtV == IF Full THEN {Zero, One, I(2)} ELSE {One, I(2)}               \* loss weights
 RBar == One                                                           \* decoded reward of uniform logits (mean of the bins)
@@ -65,7 +64,7 @@ RBar == One                                                           \* decoded
 DefPar == [gamma |-> One, delta |-> One, alpha |-> Zero, lo |-> I(-4), hi |-> I(4), rs |-> One, trs |-> One,
            dw |-> One, rw |-> Zero, tw |-> One, envterm |-> TRUE, normtgt |-> TRUE]
 
-ParSet(k) ==
+ParSetFull(k) ==
   CASE k \in Disc \cup {"ddpg", "td3"} -> {[DefPar EXCEPT !.gamma = g] : g \in GV}
     [] k = "lap"  -> {[DefPar EXCEPT !.gamma = g, !.delta = d] : g \in GV, d \in DV}
     [] k = "sac"  -> {[DefPar EXCEPT !.gamma = g, !.alpha = a] : g \in GV, a \in AV}
@@ -74,6 +73,20 @@ ParSet(k) ==
     [] k = "sale" -> {DefPar}
     [] k = "enc"  -> {[DefPar EXCEPT !.dw = d, !.rw = r, !.tw = t, !.envterm = e, !.normtgt = m] :
                         d \in WgtV, r \in {Zero, One}, t \in WgtV, e \in BOOLEAN, m \in BOOLEAN}
+(* small lattice: curated combinations instead of products *)
+ParSetSmall(k) ==
+  CASE k = "td7"  -> {[DefPar EXCEPT !.gamma = Half, !.delta = Half, !.lo = I(-1), !.hi = Zero],
+                      [DefPar EXCEPT !.gamma = One, !.delta = One],
+                      [DefPar EXCEPT !.gamma = Half, !.delta = One, !.lo = I(-1), !.hi = Zero]}
+    [] k = "mrq"  -> {[DefPar EXCEPT !.gamma = Half, !.rs = I(2), !.trs = Half],
+                      [DefPar EXCEPT !.gamma = One, !.rs = Half, !.trs = I(2)],
+                      [DefPar EXCEPT !.gamma = Half]}
+    [] k = "enc"  -> {DefPar,
+                      [DefPar EXCEPT !.dw = I(2), !.rw = One, !.normtgt = FALSE],
+                      [DefPar EXCEPT !.tw = I(2), !.envterm = FALSE],
+                      [DefPar EXCEPT !.rw = One, !.tw = I(2)]}
+    [] OTHER      -> ParSetFull(k)
+ParSet(k) == IF Full THEN ParSetFull(k) ELSE ParSetSmall(k)
 
 ZeroSeq == [j \in 1..NA |-> Zero]
 (* scenario pairs for the small lattice: online/target argmax differ, ties *)
@@ -82,24 +95,41 @@ SmallScen == {<<[j \in 1..NA |-> IF j = 1 THEN I(-2) ELSE Half], [j \in 1..NA |-
               <<[j \in 1..NA |-> IF j = 1 THEN I(3) ELSE I(-2)], [j \in 1..NA |-> IF j = 1 THEN Half ELSE I(3)]>>}
 QSeqs == [1..NA -> BV]
 
-BootSet(k) ==
-  CASE k = "dqn"    -> IF Full THEN {[Qn |-> a, Qt |-> ZeroSeq] : a \in QSeqs} ELSE {[Qn |-> s[1], Qt |-> ZeroSeq] : s \in SmallScen}
-    [] k = "nature" -> IF Full THEN {[Qn |-> ZeroSeq, Qt |-> a] : a \in QSeqs} ELSE {[Qn |-> ZeroSeq, Qt |-> s[2]] : s \in SmallScen}
-    [] k \in {"ddqn", "per"} -> IF Full THEN [Qn : QSeqs, Qt : QSeqs] ELSE {[Qn |-> s[1], Qt |-> s[2]] : s \in SmallScen}
+BootSetFull(k) ==
+  CASE k = "dqn"    -> {[Qn |-> a, Qt |-> ZeroSeq] : a \in QSeqs}
+    [] k = "nature" -> {[Qn |-> ZeroSeq, Qt |-> a] : a \in QSeqs}
+    [] k \in {"ddqn", "per"} -> [Qn : QSeqs, Qt : QSeqs]
     [] k = "ddpg"   -> [Q1t : BV, Q2t : {Zero}, logp : {Zero}]
-    [] k \in {"td3", "lap", "td7", "mrq"} -> [Q1t : BV, Q2t : IF Full THEN BV ELSE {Zero}, logp : {Zero}]
-    [] k = "sac"    -> [Q1t : BV, Q2t : IF Full THEN BV ELSE {Zero}, logp : LPV]
+    [] k \in {"td3", "lap", "td7", "mrq"} -> [Q1t : BV, Q2t : BV, logp : {Zero}]
+    [] k = "sac"    -> [Q1t : BV, Q2t : BV, logp : LPV]
     [] k = "sale"   -> [en : ZRaw]
     [] k = "enc"    -> [tz : [1..H -> ZT]]
+BootSetSmall(k) ==
+  CASE k = "dqn"    -> {[Qn |-> s[1], Qt |-> ZeroSeq] : s \in SmallScen}
+    [] k = "nature" -> {[Qn |-> ZeroSeq, Qt |-> s[2]] : s \in SmallScen}
+    [] k \in {"ddqn", "per"} -> {[Qn |-> s[1], Qt |-> s[2]] : s \in SmallScen}
+    [] k \in Cont \cup {"mrq"} -> {[Q1t |-> b, Q2t |-> Zero, logp |-> IF k # "sac" THEN Zero ELSE IF b = Half THEN I(2) ELSE I(-1)] : b \in BV}
+    [] OTHER        -> BootSetFull(k)
+BootSet(k) == IF Full THEN BootSetFull(k) ELSE BootSetSmall(k)
 
-RestSet(k) ==
+RestSetFull(k) ==
   CASE k \in Disc \ {"per"} -> [a : 1..NA, r : RV, term : {0, 1}, q : QV, w : {One}]
     [] k = "per"    -> [a : 1..NA, r : RV, term : {0, 1}, q : QV, w : WV]
     [] k = "ddpg"   -> [r : RV, term : {0, 1}, q1 : QV, q2 : {Zero}]
-    [] k \in {"td3", "lap", "sac", "td7"} -> [r : RV, term : {0, 1}, q1 : QV, q2 : IF Full THEN QV ELSE {Half}]
-    [] k = "mrq"    -> [rs : [1..H -> RV], ts : TSeqs, q1 : QV, q2 : IF Full THEN QV ELSE {Half}]
+    [] k \in {"td3", "lap", "sac", "td7"} -> [r : RV, term : {0, 1}, q1 : QV, q2 : QV]
+    [] k = "mrq"    -> [rs : [1..H -> RV], ts : TSeqs, q1 : QV, q2 : QV]
     [] k = "sale"   -> [zsa : ZV \cup ZT]
-    [] k = "enc"    -> [pz : [1..H -> ZV], pd : [1..H -> PDV], r : [1..H -> IF Full THEN RV ELSE {I(-1)}], ts : TSeqs]
+    [] k = "enc"    -> [pz : [1..H -> ZV], pd : [1..H -> PDV], r : [1..H -> {I(-1), I(2)}], ts : TSeqs]
+RestSetSmall(k) ==
+  CASE k \in Disc   -> {[a |-> IF q = Zero THEN 1 ELSE NA, r |-> r, term |-> t, q |-> q,
+                         w |-> IF k # "per" THEN One ELSE IF r = I(2) THEN I(2) ELSE Half] : r \in RV, t \in {0, 1}, q \in QV}
+    [] k = "ddpg"   -> [r : RV, term : {0, 1}, q1 : QV, q2 : {Zero}]
+    [] k \in {"td3", "lap", "sac", "td7"} -> [r : RV, term : {0, 1}, q1 : QV, q2 : {Half}]
+    [] k = "mrq"    -> {[rs |-> [t \in 1..H |-> IF t = 1 THEN r ELSE I(2)], ts |-> s, q1 |-> q, q2 |-> Half] : r \in RV, s \in TSeqs, q \in QV}
+    [] k = "enc"    -> {[pz |-> z, pd |-> [t \in 1..H |-> IF z[t] = <<Zero, Zero>> THEN Half ELSE Zero],
+                         r |-> [t \in 1..H |-> I(-1)], ts |-> s] : z \in [1..H -> ZV], s \in TSeqs}
+    [] OTHER        -> RestSetFull(k)
+RestSet(k) == IF Full THEN RestSetFull(k) ELSE RestSetSmall(k)
 
 ----------------------------------------------------------------------------
 (* the documented target *)
@@ -150,6 +180,8 @@ DRegC(k, p, rw, y, c) ==
 Reg(k, p, rw, y) == IF k \in Two THEN QAdd(RegC(k, p, rw, y, 1), RegC(k, p, rw, y, 2)) ELSE RegC(k, p, rw, y, 1)
 
 Idx(rws) == 1..Len(rws)
+(* TLC evaluates [i \in S |-> e] lazily on every application; SubSeq forces it into a tuple once *)
+Force(f, len) == SubSeq(f, 1, len)
 (* batch reduction as documented: mean over the batch, summed over the critics *)
 Loss(k, p, rws, ys) ==
   IF DEV = "broadcast"        \* deviation: (N,1) x (N,) broadcast, every prediction against every target
@@ -166,7 +198,7 @@ TdAbs(k, rw, y, c) == QAbs(QSub(IF c = 1 THEN Q1(k, rw) ELSE Q2(k, rw), y))
 (* everything the implementation returns, for one admissible choice of bootstrap values *)
 Eval(k, p, rws, ch) ==
   LET N  == Len(rws)
-      ys == [i \in Idx(rws) |-> Target(k, p, rws[i], ch[i])]
+      ys == Force([i \in Idx(rws) |-> Target(k, p, rws[i], ch[i])], N)
   IN [loss  |-> Loss(k, p, rws, ys),
       qmean |-> QMean([i \in Idx(rws) |-> IF k \in Two THEN QMin(Q1(k, rws[i]), Q2(k, rws[i])) ELSE Q1(k, rws[i])]),
       mtd   |-> QMean([i \in Idx(rws) |-> TdAbs(k, rws[i], ys[i], 1)]),          \* per: mean |TD error|
@@ -187,7 +219,7 @@ VIdx == 1..2
 AvgL1(v) == LET m == QMean([d \in VIdx |-> QAbs(v[d])]) IN [d \in VIdx |-> QDiv(v[d], m)]
 SaleEval(rws) ==
   LET N == Len(rws)
-      t == [i \in Idx(rws) |-> AvgL1(rws[i].b.en)]
+      t == Force([i \in Idx(rws) |-> Force(AvgL1(rws[i].b.en), 2)], N)
       cell(m) == LET i == ((m - 1) \div 2) + 1  d == ((m - 1) % 2) + 1 IN QSq(QSub(rws[i].x.zsa[d], t[i][d]))
   IN [loss |-> QMean([m \in 1..(2 * N) |-> cell(m)]),
       tgt  |-> t,
@@ -208,21 +240,29 @@ EncStep(p, rws, t) ==
   IN [dyn  |-> MeanOver(rws, dz),
       done |-> IF ~p.envterm THEN Zero ELSE IF DEV = "encbroadcast" THEN bc(se) ELSE mm(se),
       rmse |-> IF DEV = "encbroadcast" THEN bc(re) ELSE mm(re),
+      doneb |-> IF ~p.envterm THEN Zero ELSE bc(se),     \* what the named deviation would return (classification only)
+      rmseb |-> bc(re),
       cr   |-> MeanOver(rws, mk)]
 EncEval(p, rws) ==
   LET N == Len(rws)
-      st == [t \in 1..H |-> EncStep(p, rws, t)]
+      st == Force([t \in 1..H |-> EncStep(p, rws, t)], H)
       dyn  == QSum([t \in 1..H |-> st[t].dyn])
       done == QSum([t \in 1..H |-> st[t].done])
   IN [dyn |-> dyn, done |-> done,
       rmse |-> QSum([t \in 1..H |-> st[t].rmse]),
       cr   |-> QSum([t \in 1..H |-> st[t].cr]),          \* reward CE loss = cr * ln(#bins) for uniform logits
       exact |-> QAdd(QMul(p.dw, dyn), QMul(p.tw, done)), \* total loss minus rw * reward loss
+      done_bc |-> QSum([t \in 1..H |-> st[t].doneb]),
+      rmse_bc |-> QSum([t \in 1..H |-> st[t].rmseb]),
+      exact_bc |-> QAdd(QMul(p.dw, dyn), QMul(p.tw, QSum([t \in 1..H |-> st[t].doneb]))),
       mask |-> [i \in Idx(rws) |-> [t \in 1..H |-> Mask(rws[i].x.ts, t)]],
       \* d total / d predicted done flag (i, t)
       gd |-> [i \in Idx(rws) |-> [t \in 1..H |->
                 IF ~p.envterm THEN Zero
                 ELSE QDiv(QMul(QMul(p.tw, I(2 * Mask(rws[i].x.ts, t))), QSub(rws[i].x.pd[t], I(rws[i].x.ts[t]))), I(N))]],
+      gd_bc |-> [i \in Idx(rws) |-> [t \in 1..H |->    \* the same under the named deviation (classification only)
+                IF ~p.envterm THEN Zero
+                ELSE QDiv(QMul(QMul(QMul(p.tw, I(2)), st[t].cr), QSub(rws[i].x.pd[t], I(rws[i].x.ts[t]))), I(N))]],
       \* d total / d predicted latent state of the LAST step (no downstream use)
       gz |-> [i \in Idx(rws) |-> [d \in VIdx |->
                 QDiv(QMul(QMul(p.dw, I(Mask(rws[i].x.ts, H))), QSub(rws[i].x.pz[H][d], rws[i].b.tz[H][d])), I(N))]]]
@@ -306,17 +346,19 @@ AltBoots(k) ==
 Terminated(k, rw) == IF k = "mrq" THEN \E t \in 1..H : rw.x.ts[t] = 1 ELSE rw.x.term = 1
 TerminatedNoBootstrap ==
   (Done /\ kind \in Disc \cup Cont \cup {"mrq"}) =>
-    \A i \in Idx(rows) : Terminated(kind, rows[i]) =>
-      \A b \in AltBoots(kind) : Alts(kind, par, [rows EXCEPT ![i].b = b]) = Alts(kind, par, rows)
+    LET base == Alts(kind, par, rows)
+    IN \A i \in Idx(rows) : Terminated(kind, rows[i]) =>
+         \A b \in AltBoots(kind) : Alts(kind, par, [rows EXCEPT ![i].b = b]) = base
 
 (* MR.Q encoder: steps after the first termination of a row are ignored whatever is predicted / observed there *)
 AfterTermIgnored ==
   (Done /\ kind = "enc") =>
-    \A i \in Idx(rows) : \A t \in 1..H : Mask(rows[i].x.ts, t) = 0 =>
-      LET alt == [rows EXCEPT ![i].x.pd[t] = I(3), ![i].x.pz[t] = <<I(3), I(-2)>>, ![i].b.tz[t] = <<I(-2), Half>>,
-                              ![i].x.r[t] = I(0), ![i].x.ts[t] = 1 - rows[i].x.ts[t]]
-          a == EncEval(par, alt)  o == EncEval(par, rows)
-      IN <<a.dyn, a.done, a.rmse, a.cr, a.exact>> = <<o.dyn, o.done, o.rmse, o.cr, o.exact>>
+    LET o == EncEval(par, rows)
+    IN \A i \in Idx(rows) : \A t \in 1..H : Mask(rows[i].x.ts, t) = 0 =>
+         LET alt == [rows EXCEPT ![i].x.pd[t] = I(3), ![i].x.pz[t] = <<I(3), I(-2)>>, ![i].b.tz[t] = <<I(-2), Half>>,
+                                 ![i].x.r[t] = I(0), ![i].x.ts[t] = 1 - rows[i].x.ts[t]]
+             a == EncEval(par, alt)
+         IN <<a.dyn, a.done, a.rmse, a.cr, a.exact>> = <<o.dyn, o.done, o.rmse, o.cr, o.exact>>
 
 (* order of the batch is irrelevant; per-sample outputs move with their rows *)
 Swap(s) == [i \in Idx(s) |-> IF i = 1 THEN s[2] ELSE IF i = 2 THEN s[1] ELSE s[i]]
@@ -328,16 +370,19 @@ Id(s) == s
 PermutationInvariant ==
   (Done /\ n >= 2) =>
     CASE kind = "sale" ->
-           /\ SaleEval(Swap(rows)).loss = SaleEval(rows).loss /\ UnSwap(SaleEval(Swap(rows)).g) = SaleEval(rows).g
-           /\ SaleEval(Rot(rows)).loss = SaleEval(rows).loss
+           LET o == SaleEval(rows)  a == SaleEval(Swap(rows))
+           IN /\ a.loss = o.loss /\ UnSwap(a.g) = o.g
+              /\ SaleEval(Rot(rows)).loss = o.loss
       [] kind = "enc" ->
            LET pr(e) == <<e.dyn, e.done, e.rmse, e.cr, e.exact>>
-           IN /\ pr(EncEval(par, Swap(rows))) = pr(EncEval(par, rows))
-              /\ pr(EncEval(par, Rot(rows))) = pr(EncEval(par, rows))
-              /\ UnRot(EncEval(par, Rot(rows)).gd) = EncEval(par, rows).gd
+               o == EncEval(par, rows)  a == EncEval(par, Rot(rows))
+           IN /\ pr(EncEval(par, Swap(rows))) = pr(o)
+              /\ pr(a) = pr(o)
+              /\ UnRot(a.gd) = o.gd
       [] OTHER ->
-           /\ {ProjC(r, UnSwap) : r \in Alts(kind, par, Swap(rows))} = {ProjC(r, Id) : r \in Alts(kind, par, rows)}
-           /\ {ProjC(r, UnRot) : r \in Alts(kind, par, Rot(rows))} = {ProjC(r, Id) : r \in Alts(kind, par, rows)}
+           LET base == {ProjC(r, Id) : r \in Alts(kind, par, rows)}
+           IN /\ {ProjC(r, UnSwap) : r \in Alts(kind, par, Swap(rows))} = base
+              /\ (n > 2 => {ProjC(r, UnRot) : r \in Alts(kind, par, Rot(rows))} = base)
 
 (* the loss is the mean of per-sample terms (no cross terms between rows) *)
 PerSample ==
@@ -346,13 +391,13 @@ PerSample ==
            SaleEval(rows).loss = QMean([i \in Idx(rows) |-> SaleEval(<<rows[i]>>).loss])
       [] kind = "enc" ->
            LET e == EncEval(par, rows)
-               s == [i \in Idx(rows) |-> EncEval(par, <<rows[i]>>)]
+               s == Force([i \in Idx(rows) |-> EncEval(par, <<rows[i]>>)], n)
            IN /\ e.dyn = QMean([i \in Idx(rows) |-> s[i].dyn]) /\ e.done = QMean([i \in Idx(rows) |-> s[i].done])
               /\ e.rmse = QMean([i \in Idx(rows) |-> s[i].rmse]) /\ e.cr = QMean([i \in Idx(rows) |-> s[i].cr])
       [] OTHER ->
            \A ch \in ChoiceSeqs(kind, par, rows, n) :
              LET e == Eval(kind, par, rows, ch)
-                 s == [i \in Idx(rows) |-> Eval(kind, par, <<rows[i]>>, <<ch[i]>>)]
+                 s == Force([i \in Idx(rows) |-> Eval(kind, par, <<rows[i]>>, <<ch[i]>>)], n)
              IN /\ e.loss = QMean([i \in Idx(rows) |-> s[i].loss])
                 /\ e.loss = QMean([i \in Idx(rows) |-> Reg(kind, par, rows[i], e.y[i])])
                 /\ e.qmean = QMean([i \in Idx(rows) |-> s[i].qmean])
